@@ -1,4 +1,11 @@
 import Driver.Solver
+import Driver.Linker
+import Driver.Frame
+import Driver.TimeSeries
+import Driver.EvalIndex
+import Driver.Reindex
+import Driver.Fortran
+import Driver.Expr
 import Driver.Container
 /-
 Correspondence driver.  `.lake/build/bin/fsicdrv < requests > replies`  (or `lake env lean --run Main.lean`)
@@ -8,7 +15,15 @@ Every model family registers its handlers in its own `Driver/<Family>.lean`; thi
 open Lean
 
 def allHandlers : List (String × (Json → Except String String)) :=
-  Drv.Solver.handlers ++ Drv.Container.handlers
+  Drv.Solver.handlers2 ++
+  Drv.Linker.handlers ++
+  Drv.Frame.handlers ++
+  Drv.TimeSeries.handlers ++
+  Drv.EvalIndex.handlers ++
+  Drv.Reindex.handlers ++
+  Drv.Fortran.handlers ++
+  Drv.Expr.handlers ++
+  Drv.Container.handlers
 
 def dispatch (kind : String) (j : Json) : Except String String :=
   match allHandlers.lookup kind with
